@@ -263,6 +263,7 @@ def errOK : Option Err → Option RErr → Bool
   | none, none => true
   | some .eof, some .eof => true
   | some .negPos, some .negPos => true
+  | some .invalidWhence, some .invalidWhence => true
   | _, _ => false
 
 /-- same bytes, same returned count/position, same position afterwards, corresponding error -/
@@ -277,11 +278,6 @@ structure Sim (id c : Nat) (content : Bytes) (ds : DownloadStream) (r : Reader) 
   rc : r.content = content
   pos : ds.position = r.pos
   live : r.pos < content.length → Live c ds (content.drop r.pos)
-
-/-- scripts inside io.Seeker's contract: whence ∈ {SeekStart, SeekCurrent, SeekEnd} -/
-def ROp.valid : ROp → Prop
-  | .seek _ w => w = 0 ∨ w = 1 ∨ w = 2
-  | _ => True
 
 section
 variable {st : Store} {id c : Nat} {content : Bytes}
@@ -366,20 +362,24 @@ theorem sim_seekPos (wf : WF st id c content) {ds : DownloadStream} {r : Reader}
     exact ⟨e2, rfl, rfl⟩
 
 theorem sim_seek (wf : WF st id c content) {ds : DownloadStream} {r : Reader} (h : Sim id c content ds r)
-    (o w : Int) (hw : w = 0 ∨ w = 1 ∨ w = 2) :
+    (o w : Int) :
     Sim id c content (ds.seek st o w).1 (r.seek o w).1 ∧ (ds.seek st o w).2.1 = (r.seek o w).2.1 ∧
     errOK (ds.seek st o w).2.2 (r.seek o w).2.2 = true := by
   unfold DownloadStream.seek Reader.seek
-  rw [h.closed, if_pos hw]
+  rw [h.closed]
   simp only [Bool.false_eq_true, if_false, h.file, h.rc, h.pos]
-  rcases hw with rfl | rfl | rfl
-  · simpa using sim_seekPos wf h o
-  · simpa using sim_seekPos wf h (wrap64 (r.pos + o))
-  · simpa using sim_seekPos wf h (wrap64 (content.length + o))
+  by_cases hw : w = 0 ∨ w = 1 ∨ w = 2
+  · rw [if_pos hw, if_pos hw]
+    rcases hw with rfl | rfl | rfl
+    · simpa using sim_seekPos wf h o
+    · simpa using sim_seekPos wf h (wrap64 (r.pos + o))
+    · simpa using sim_seekPos wf h (wrap64 (content.length + o))
+  · rw [if_neg hw, if_neg hw]
+    exact ⟨h, rfl, rfl⟩
 
 /-- one script step preserves the simulation and produces matching outputs -/
 theorem sim_step (wf : WF st id c content) {ds : DownloadStream} {r : Reader} (h : Sim id c content ds r)
-    (op : ROp) (hv : op.valid) :
+    (op : ROp) :
     Sim id c content (ds.step st op).1 (r.step op).1 ∧ OutMatch (ds.step st op).2 (r.step op).2 := by
   cases op with
   | read n =>
@@ -389,24 +389,24 @@ theorem sim_step (wf : WF st id c content) {ds : DownloadStream} {r : Reader} (h
     · show (ds.read n).2.1.length = (r.read n).2.1.length; rw [b]
     · exact a.pos
   | seek o w =>
-    obtain ⟨a, b, c'⟩ := sim_seek wf h o w hv
+    obtain ⟨a, b, c'⟩ := sim_seek wf h o w
     exact ⟨a, rfl, b, a.pos, c'⟩
   | skip n =>
-    obtain ⟨a, b, c'⟩ := sim_seek wf h n 1 (Or.inr (Or.inl rfl))
+    obtain ⟨a, b, c'⟩ := sim_seek wf h n 1
     exact ⟨a, rfl, b, a.pos, c'⟩
 
 /-- every script produces matching outputs -/
 theorem sim_run (wf : WF st id c content) : ∀ (script : List ROp) (ds : DownloadStream) (r : Reader),
-    Sim id c content ds r → (∀ op ∈ script, op.valid) →
+    Sim id c content ds r →
     Forall2 OutMatch (ds.run st script) (r.run script) := by
   intro script
   induction script with
-  | nil => intro ds r _ _; exact trivial
+  | nil => intro ds r _; exact trivial
   | cons op ops ih =>
-    intro ds r h hv
-    obtain ⟨a, b⟩ := sim_step wf h op (hv op (by simp))
+    intro ds r h
+    obtain ⟨a, b⟩ := sim_step wf h op
     simp only [DownloadStream.run, Reader.run]
-    exact ⟨b, ih _ _ a (fun x hx => hv x (by simp [hx]))⟩
+    exact ⟨b, ih _ _ a⟩
 
 theorem chunkCount_eq (c : Nat) (hc : 0 < c) (L : Nat) :
     L / c + (if L % c ≠ 0 then 1 else 0) = (L + c - 1) / c := by
